@@ -43,7 +43,8 @@ PROBES = ['incremental_update', 'restart_appeared_between_calls',
           'keys_parsed', 'files_parsed', 'parameters_parsed',
           'nothing_to_process', 'writer_running_during_call',
           'checkpoints_per_proc', 'enum_permuted', 'overall_checked',
-          'group_vars_change', 'per_level_components', 'io_fault_fired',
+          'group_vars_change', 'per_level_components',
+          'process_numbers_with_gaps', 'io_fault_fired',
           'io_fault_raise_accepted', 'io_fault_swallowed',
           'call_after_io_fault_checked']
 COMPONENTS = {
@@ -100,6 +101,7 @@ def generate(rng, tier):
     cfg = etsim.gen_config(rng, hostile_names=hostile, max_restarts=4,
                            decomp_classes=('tensor', 'hier'), max_P=6,
                            mixed_grouping_p=0.0, group_vars_change_p=0.3,
+                           label_gaps_p=0.25,
                            allow_stride_change=rng.chance(0.3))
     g = rng.child('ops')
     gf = rng.child('iofaults')
@@ -269,6 +271,8 @@ def _execute(run, plan):
         fault('group_vars_change')
     if any(len({len(b) for b in rs['boxes']}) > 1 for rs in cfg['restarts']):
         fault('per_level_components')
+    if any(rs.get('labels') for rs in cfg['restarts']):
+        fault('process_numbers_with_gaps')
     cat = iosim.Catalogued()
     checked = 0
     last_mem = None            # last dict returned by iterations()
@@ -602,7 +606,8 @@ def _check_parsing(sim, cfg, rd, viol, probe, opi):
                     info = rd.parse_h5file(path)
                     probe('files_parsed')
                     exp = {'group_file': rs['grouped'],
-                           'chunk_number': c if rs['per_proc'] else None,
+                           'chunk_number': (sim.label(rs, c)
+                                            if rs['per_proc'] else None),
                            'variable_or_group': (base.split('-', 1)[1]
                                                  if rs['grouped'] else base),
                            'thorn': (base.split('-', 1)[0]
